@@ -86,6 +86,11 @@ var c13Leaves = []syncLeaf{
 	{"/peer[name=n1][zone=z1]/as", "uint", false, []string{"1", "2"}},
 	{"/duo[k1=a][k2=b]/v", "string", false, []string{"p", "q"}},
 	{"/duo[k1=a][k2=a]/v", "string", false, []string{"p", "q"}},
+	// deeper nesting: several leaves of one message share a prefix of three or four elements
+	{"/if[name=e1]/unit[id=1]/qos/in", "string", false, []string{"i1", "i2"}},
+	{"/if[name=e1]/unit[id=1]/qos/out", "string", false, []string{"o1", "o2"}},
+	{"/if[name=e1]/unit[id=1]/qos/sched/mode", "string", false, []string{"wrr", "sp"}},
+	{"/if[name=e1]/unit[id=1]/qos/sched/weight", "uint", false, []string{"10", "20"}},
 	// leaf-lists: reported with one update per element, the element as key of the last path element and no value
 	{"/if[name=e1]/addrs", "llkeys", false, []string{"LL:a1,a2", "LL:a3", "LL:a2,a1,a4"}},
 	{"/if[name=e10]/addrs", "llkeys", false, []string{"LL:b1,b2", "LL:b3"}},
@@ -104,6 +109,9 @@ func c13KeyKind(p string) string {
 
 // one scripted item
 type syncItem struct {
+	// Prefix: how many leading path elements common to all paths of the notification travel in the gNMI prefix
+	// (only the gNMI delivery modes can say that)
+	Prefix            int
 	Start, End, Force bool
 	Barrier           bool // harness barrier (quiescence), not sent to the server as such
 	Upds              []syncUpd
@@ -137,6 +145,9 @@ func (it syncItem) String() string {
 		} else {
 			p = append(p, fmt.Sprintf("%s=%s(%s)", u.Path, u.Val, u.Form))
 		}
+	}
+	if it.Prefix > 0 {
+		return fmt.Sprintf("N(prefix<=%d){", it.Prefix) + strings.Join(p, "; ") + "}"
 	}
 	return "N{" + strings.Join(p, "; ") + "}"
 }
@@ -309,8 +320,36 @@ func (it syncItem) toSyncUpdate() *target.SyncUpdate {
 // toGNMI is the notification as a gNMI device sends it.
 func (it syncItem) toGNMI() *gnmi.Notification {
 	n := &gnmi.Notification{Timestamp: 1}
+	// the common prefix of all paths of the message
+	var all []model.Path
 	for _, d := range it.Dels {
-		n.Delete = append(n.Delete, fixture.ToGPath(model.Parse(d)))
+		all = append(all, model.Parse(d))
+	}
+	for _, u := range it.Upds {
+		all = append(all, model.Parse(u.Path))
+	}
+	plen := 0
+	if it.Prefix > 0 && len(all) > 0 {
+		plen = it.Prefix
+		for _, p := range all {
+			if len(p)-1 < plen {
+				plen = len(p) - 1
+			}
+		}
+		for i := 0; i < plen; i++ {
+			for _, p := range all[1:] {
+				if p[:i+1].String() != all[0][:i+1].String() {
+					plen = i
+				}
+			}
+		}
+		if plen > 0 {
+			n.Prefix = fixture.ToGPath(all[0][:plen])
+		}
+	}
+	rel := func(s string) model.Path { return model.Parse(s)[plen:] }
+	for _, d := range it.Dels {
+		n.Delete = append(n.Delete, fixture.ToGPath(rel(d)))
 	}
 	for _, u := range it.Upds {
 		var tv *gnmi.TypedValue
@@ -323,7 +362,7 @@ func (it syncItem) toGNMI() *gnmi.Notification {
 			tv = &gnmi.TypedValue{Value: &gnmi.TypedValue_UintVal{UintVal: x}}
 		case "llkeys":
 			for _, el := range strings.Split(strings.TrimPrefix(u.Val, "LL:"), ",") {
-				p := model.Parse(u.Path)
+				p := rel(u.Path)
 				p[len(p)-1].Keys = map[string]string{p[len(p)-1].Name: el}
 				n.Update = append(n.Update, &gnmi.Update{Path: fixture.ToGPath(p)})
 			}
@@ -331,7 +370,7 @@ func (it syncItem) toGNMI() *gnmi.Notification {
 		default:
 			tv = &gnmi.TypedValue{Value: &gnmi.TypedValue_StringVal{StringVal: u.Val}}
 		}
-		n.Update = append(n.Update, &gnmi.Update{Path: fixture.ToGPath(model.Parse(u.Path)), Val: tv})
+		n.Update = append(n.Update, &gnmi.Update{Path: fixture.ToGPath(rel(u.Path)), Val: tv})
 	}
 	return n
 }
@@ -390,6 +429,9 @@ func genScript(rng *core.Rng, W int, allowMultiJSON bool) []syncItem {
 			}
 		}
 		it.Upds = us
+		if rng.Chance(1, 2) {
+			it.Prefix = 1 + rng.Intn(4)
+		}
 		return it
 	}
 	var batch []syncItem
@@ -718,6 +760,9 @@ func (c *c13) RunCase(w *core.Worker, idx int, seed uint64, res *core.CaseResult
 				}
 				cur.Upds = append(cur.Upds, syncUpd{Path: l.path, Val: l.vals[rng.Intn(len(l.vals))], Form: form})
 				if rng.Chance(1, 4) {
+					if rng.Bool() {
+						cur.Prefix = 1 + rng.Intn(4)
+					}
 					notifs = append(notifs, cur.toGNMI())
 					m.apply(cur)
 					script = append(script, cur)
